@@ -95,8 +95,9 @@ class SaveSensors:
         v_old = _prior(h, fs, c["prior"])
         new = _new_content(h)
         fs.fault_at = c["fault"]
-        fs.obligation_hook = _crash_hook(h, v_old, view(new))
-        h.it.env.update(v_old=v_old, v_new=view(new))
+        tag = f"save_sensors[{c['fmt']},{c['prior']},fault={c['fault']}]"
+        fs.obligation_hook = _crash_hook(h, v_old, view(new), tag)
+        h.it.env.update(v_old=v_old, v_new=view(new), crash_tag=tag)
         return [p], {}
 
     # an I/O error may only come out of a save in which an operation actually failed
@@ -130,7 +131,7 @@ def now_recovers_new():
 def _install_vocab(it):
     def m_exit(it2, a, k):
         fs = it2.env["fs"]
-        emit_crash_obligations(it2.ctx, fs, it2.env["v_old"], it2.env["v_new"], "save_sensors.crash@exit")
+        emit_crash_obligations(it2.ctx, fs, it2.env["v_old"], it2.env["v_new"], it2.env.get("crash_tag", "save_sensors") + ".crash@exit")
         return True
 
     def m_new(it2, a, k):
